@@ -227,10 +227,11 @@ def r6(c):
         wf = one(b.calls(WFE), 'wait_for_enabled')
         step = one(b.calls(T + '::try_connect_and_run', T + '::try_open_and_run'), 'step')
         e1 = q.outcomes(b, wf).get('Err', [])
-        ok1 = len(e1) == 1 and wf.node not in b.reach_set(e1[0]) and step.node not in b.reach_set(e1[0])
+        rets_ = {('b', i_) for i_ in b.return_blocks()}
+        ok1 = len(e1) == 1 and wf.node not in b.reach_set(e1[0]) and step.node not in b.reach_set(e1[0]) and bool(b.reach_set(e1[0]) & rets_)
         c.ob('%s/shutdown-while-disabled' % nm, ok1, 'Err(Shutdown) from wait_for_enabled returns', '', wf.loc())
         sd = [e for e, v, info in b.variant_edges('rodbus::client::task::StateChange') if v == 'Shutdown' and q.sem(b, info['place']).kind == 'call' and q.sem(b, info['place']).cs is step]
-        ok2 = len(sd) == 1 and wf.node not in b.reach_set(sd[0])
+        ok2 = len(sd) == 1 and wf.node not in b.reach_set(sd[0]) and bool(b.reach_set(sd[0]) & rets_)
         c.ob('%s/shutdown-from-step' % nm, ok2, 'Err(StateChange::Shutdown) from the attempt / session returns', str(sd), step.loc())
     r = P.fn(TT + '::run_connection')
     arms = q.arms_of(r, 'rodbus::client::task::SessionError')
